@@ -29,6 +29,16 @@ def mit(exe, requests):
     return out
 
 
+def spec_stage(run, fn, *args):
+    """Runs a stage that compares a specification with MIT (no gokrb5 code involved); a stage that cannot be carried out is a recorded
+    problem of the specification's validation, not a verdict and not a failure of the check."""
+    try:
+        return fn(*args)
+    except (vlib.Inconclusive, subprocess.SubprocessError, OSError, ValueError, KeyError) as e:
+        vlib.spec_validation_problem(run, "%s could not be carried out: %s" % (fn.__name__, e))
+        return {"available": False, "note": "stage failed: %s" % str(e)[:300]}
+
+
 def run_mit_cross(seed, n=40):
     """n: cases per etype and operation"""
     exe = build_mitref()
